@@ -377,6 +377,16 @@ M("C10", "v67-displaced-entry-count-one", (CH, "            estimate\n        };
 M("C13", "v69-ordering-arms-swapped", (QF, "                    Ordering::Greater => break,\n                    Ordering::Less => {}", "                    Ordering::Less => break,\n                    Ordering::Greater => {}"), "R13-scan", "scan", base="benign/B69/patch.diff")
 M("C05", "v63-get-mut-wrong-slot", (RS, "if let Some(slot) = self.reservoir.get_mut(j) {", "if let Some(slot) = self.reservoir.get_mut(j / 2) {"), "R05-accept-range", "add", base="benign/B63/patch.diff")
 
+# ======================================================================================= perf round (B79..B84) additions
+M("C13", "v79-masked-incr-steps-two", (QF, "*pos = (*pos + 1) & (self.is_occupied.len() - 1);", "*pos = (*pos + 2) & (self.is_occupied.len() - 1);"), "R13-ring", "", base="benign/B79/patch.diff")
+M("C13", "v79-mask-one-bit-short", (QF, "let remainder = fingerprint_clean & ((1u64 << bits_remainder) - 1);", "let remainder = fingerprint_clean & ((1u64 << (bits_remainder - 1)) - 1);"), "R13-split", "", base="benign/B79/patch.diff")
+M("C13", "v79-clean-mask-inverted-test", (QF, "let fingerprint_clean = if bits_used < 64 {", "let fingerprint_clean = if bits_used >= 64 {"), "R13-split", "", base="benign/B79/patch.diff")
+M("C19", "v79-clear-skips-first-block", (QF, "for block in 0..self.remainders.block_len() {", "for block in 1..self.remainders.block_len() {"), "R19-clear-covers-state", "remainders", base="benign/B79/patch.diff")
+M("C10", "v83-pop-first-without-map-remove", (CH, "                        self.obj2count.remove(&min.obj);\n", "                        let _ = &min;\n"), "R10-paired", "add", base="benign/B83/patch.diff")
+M("C02", "v84-slice-cell-other-row", (CMS, "let cell = &mut table[i * w + pos];", "let cell = &mut table[i + w * pos];"), "R02-cell-agreement", "add_n", base="benign/B84/patch.diff")
+M("C11", "v84-blocks-shift-off", (HP, "trailing_zeros()", "trailing_zeros() + 1"), "R11-dimension", "", base="benign/B84/patch.diff")
+M("C15", "v82-prev-not-updated", (TD, "            c_last = c;\n", ""), "shape-unrecognised", "quantile", base="benign/B82/patch.diff")
+
 
 def main():
     out = os.path.join(os.path.dirname(os.path.abspath(__file__)), "corpus.json")
